@@ -376,6 +376,24 @@ func (s *sys) Canon(i any) string {
 
 func build(cfg string) explore.System {
 	switch {
+	case strings.HasPrefix(cfg, "lru"):
+		// tiny alphabet for a deep search WITHOUT state de-duplication: inserts and exact hits
+		// on three names at a fixed capacity (state hidden from the canonical form, e.g. a cached
+		// "last used" shortcut, can only be exposed by histories, not by states)
+		var c int
+		fmt.Sscanf(cfg, "lru cap=%d", &c)
+		s := newSys([]string{"/a", "/a/b", "/c"}, c, nil, []int{-1}, nil)
+		var keep []explore.Op
+		for _, op := range s.ops {
+			if strings.HasPrefix(op.Name, "Put(") && strings.HasSuffix(op.Name, ",p)") {
+				keep = append(keep, op)
+			}
+			if strings.HasPrefix(op.Name, "Get(") && strings.Contains(op.Name, "cbp=false,mbf=false") && !strings.HasPrefix(op.Name, "Get(/,") && !strings.HasPrefix(op.Name, "Get(/zz") {
+				keep = append(keep, op)
+			}
+		}
+		s.ops = keep
+		return s
 	case strings.HasPrefix(cfg, "small"):
 		var c int
 		fmt.Sscanf(cfg, "small cap=%d", &c)
@@ -409,6 +427,12 @@ func main() {
 			}
 			c = append(c, explore.Config{Name: "audit(no dedup) small cap=2", BuildName: "small cap=2", MaxDepth: ad + 1, MaxDev: -1, NoDedup: true})
 			c = append(c, explore.Config{Name: "audit(no dedup) full cap=2", BuildName: "full cap=2", MaxDepth: ad, MaxDev: -1, NoDedup: true})
+			ld := 7
+			if th {
+				ld = 9
+			}
+			c = append(c, explore.Config{Name: "history search (no dedup) lru cap=2", BuildName: "lru cap=2", MaxDepth: ld, MaxDev: -1, NoDedup: true})
+			c = append(c, explore.Config{Name: "history search (no dedup) lru cap=1", BuildName: "lru cap=1", MaxDepth: ld - 1, MaxDev: -1, NoDedup: true})
 			return c
 		},
 		Budget: func(th bool) time.Duration {
